@@ -1,4 +1,238 @@
-import Stgutg.Model.NasProtect
-import Stgutg.Spec.NasSecurity
+/-
+  C06 — Uplink NAS protection is correct over any message history.
+  Property theorems only; helper lemmas live in Stgutg/Proofs/{Count,NasProtect}.lean.
+
+  Model: Stgutg.Model.NasProtect (`Count`, `nasEncode` = tglib.NASEncode as repaired by F8, `encodeNasPduWithSecurity`,
+         `runEncode` = successive calls on one RanUeContext) on top of Stgutg.Model.NasAlg (C07).
+  Spec:  Stgutg.Spec.NasSecurity (TS 24.501 4.4 / 9.x, TS 33.501 6.4: `protect`, `receive`, `ueProtect`, `ueRun`)
+         on top of Stgutg.Spec.NasAlg (the 128-NEA / 128-NIA algorithms of the standards).
+  `P : Prims` carries crypto/aes, cipher.NewCTR and aead/cmac as parameters; `PrimsOk P` (CTR is a keystream
+  cipher, the CMAC tag has at least four octets) is needed only where the receiver deciphers / splits off the MAC.
+  The plain NAS codec is outside the model: `op.plain` is `msg.PlainNasEncode()`.
+
+  Notation: `cval w` = NAS COUNT value of a stored counter word (`w mod 2^24`), `ctxOf ue` = the UE's keys and
+  algorithm identifiers as a specification context, `Supported ue` = {NIA1,NIA2} × {NEA0,NEA1,NEA2},
+  `UlInScope op` = header type 1..4 whenever the message is protected.
+-/
+import Stgutg.Proofs.NasProtect
+import Stgutg.Proofs.CryptoPrimsOk
+import Stgutg.Crypto.Prims
+
 namespace Stgutg.Props.C06
+open Stgutg Stgutg.Model.NasProtect Stgutg.Proofs.NasProtect
+open Stgutg.Spec.NasSecurity
+
+/-! ### the counter type, for all 2^32 stored words -/
+
+/-- `Set/Get/AddOne/SQN/SetSQN/Overflow/SetOverflow` in arithmetic on the stored word `w` (bit-vector lemmas, no
+    enumeration): the NAS COUNT is `w mod 2^24`, SQN its low octet, the overflow counter the next 16 bits;
+    `AddOne` is +1 modulo 2^24; the setters replace exactly their field and keep bits 24..31. -/
+theorem counter_ops (w : UInt32) (o : UInt16) (s : UInt8) :
+    (Count.get w).2.toNat = w.toNat % 2 ^ 24 ∧ (Count.get w).1.toNat = w.toNat % 2 ^ 24 ∧
+    (Count.addOne w).toNat = (w.toNat + 1) % 2 ^ 24 ∧
+    (Count.sqn w).toNat = w.toNat % 256 ∧
+    (Count.overflow w).toNat = w.toNat / 256 % 65536 ∧
+    (Count.setSQN w s).toNat = w.toNat / 256 * 256 + s.toNat ∧
+    (Count.setOverflow w o).toNat = w.toNat / 2 ^ 24 * 2 ^ 24 + o.toNat * 256 + w.toNat % 256 ∧
+    (Count.set w o s).toNat = w.toNat / 2 ^ 24 * 2 ^ 24 + o.toNat * 256 + s.toNat ∧
+    (Count.get (Count.set w o s)).2.toNat = o.toNat * 256 + s.toNat :=
+  ⟨Proofs.Count.toNat_get_value w, Proofs.Count.toNat_get_stored w, Proofs.Count.toNat_addOne w,
+   Proofs.Count.toNat_sqn w, Proofs.Count.toNat_overflow w, Proofs.Count.toNat_setSQN w s,
+   Proofs.Count.toNat_setOverflow w o, Proofs.Count.toNat_set w o s, by
+     rw [Proofs.Count.toNat_get_value, Proofs.Count.toNat_set]
+     have := o.toNat_lt; have := s.toNat_lt; omega⟩
+
+/-- NAS COUNT = overflow(16) ‖ SQN(8): the sequence-number octet is COUNT mod 256, the overflow is COUNT / 256,
+    the 32-bit COUNT input is 0x00 ‖ overflow ‖ SQN; stepping to the next COUNT carries the SQN wrap into the
+    overflow counter and wraps at 2^24. The accessors of the code read exactly these fields of the stored word. -/
+theorem sqn_overflow (c : Nat) (hc : c < 2 ^ 24) (w : UInt32) (hw : cval w = c) :
+    sqnOf c = c % 256 ∧ overflowOf c = c / 256 ∧ (count32 c).toNat = overflowOf c * 256 + sqnOf c ∧
+    sqnOf ((c + 1) % 2 ^ 24) = (sqnOf c + 1) % 256 ∧
+    overflowOf ((c + 1) % 2 ^ 24) = (if sqnOf c = 255 then (overflowOf c + 1) % 65536 else overflowOf c) ∧
+    (Count.sqn w).toNat = sqnOf c ∧ (Count.overflow w).toNat = overflowOf c ∧
+    cval (Count.addOne w) = (c + 1) % 2 ^ 24 := by
+  unfold cval at hw
+  refine ⟨rfl, by unfold overflowOf; omega, ?_, by unfold sqnOf; omega, ?_, ?_, ?_, ?_⟩
+  · unfold count32 countMod overflowOf sqnOf; rw [UInt32.toNat_ofNat']; omega
+  · unfold overflowOf sqnOf; split <;> omega
+  · rw [Proofs.Count.toNat_sqn]; unfold sqnOf; omega
+  · rw [Proofs.Count.toNat_overflow]; unfold overflowOf; omega
+  · unfold cval; rw [Proofs.Count.toNat_addOne]; omega
+
+/-! ### one message -/
+
+/-- **One protected message, from any state.** With `c` the NAS COUNT in force (0 if this message takes a new
+    context into use, otherwise the value of the stored UL counter word — whatever its bits 24..31), `NASEncode`
+    returns EPD ‖ header type ‖ MAC ‖ SQN ‖ body with SQN = c mod 256, body = 128-NEA(K_NASenc, c, BEARER 1,
+    DIRECTION uplink, plain) exactly under header types 2 and 4 and the plain message otherwise,
+    MAC = 128-NIA(K_NASint, c, BEARER 1, DIRECTION uplink, SQN ‖ body); the UL counter becomes c + 1 mod 2^24. -/
+theorem step_protects (P : Prims) (ue : UeSec) (op : UlOp) (hs : Supported ue) (hctx : op.ctxAvail = true) :
+    ∃ body mac,
+      (if op.sht = 2 ∨ op.sht = 4
+        then Spec.NasAlg.nea P ue.cipheringAlg.toNat ue.knasEnc (count32 (if op.newCtx then 0 else cval ue.ulCount)) 1 0 op.plain = some body
+        else body = op.plain) ∧
+      Spec.NasAlg.nia P ue.integrityAlg.toNat ue.knasInt (count32 (if op.newCtx then 0 else cval ue.ulCount)) 1 0
+        (UInt8.ofNat ((if op.newCtx then 0 else cval ue.ulCount) % 256) :: body) = some mac ∧
+      (nasEncode P ue op).2 =
+        .ok ([op.epd, op.sht] ++ mac ++ [UInt8.ofNat ((if op.newCtx then 0 else cval ue.ulCount) % 256)] ++ body) ∧
+      cval (nasEncode P ue op).1.ulCount = ((if op.newCtx then 0 else cval ue.ulCount) + 1) % 2 ^ 24 := by
+  obtain ⟨body, mac, hb, hm, he⟩ := ul_step P ue op hs hctx
+  refine ⟨body, mac, ?_, ?_, by rw [he]; rfl, ?_⟩
+  · have h24 : (op.sht = 2 ∨ op.sht = 4) ↔ isCipheredType op.sht = true := by simp [isCipheredType]
+    unfold bodyAsSent at hb
+    rw [← isCipheredType_eq] at hb
+    by_cases hc : isCipheredType op.sht = true
+    · rw [if_pos (h24.mpr hc)]; simpa [hc, ctxOf, bearer3gpp, uplink] using hb
+    · rw [if_neg (fun h => hc (h24.mp h))]; simp [hc] at hb; exact hb.symm
+  · simpa [macOf, ctxOf, bearer3gpp, uplink, sqnOf] using hm
+  · rw [he]; exact (cval_addOne_get _).trans (by rw [cval_afterReset_ul])
+
+/-- MAC = 128-NIA over SQN ‖ message as sent, BEARER = 1, DIRECTION = uplink (projection of `step_protects`,
+    stated on the octets: whatever `NASEncode` returns splits as header ‖ MAC ‖ SQN ‖ body with that MAC). -/
+theorem mac_is_nia_over_sqn_body (P : Prims) (ue : UeSec) (op : UlOp) (hs : Supported ue) (hctx : op.ctxAvail = true) :
+    ∃ mac sqn body, (nasEncode P ue op).2 = .ok ([op.epd, op.sht] ++ mac ++ [sqn] ++ body) ∧
+      sqn.toNat = (if op.newCtx then 0 else cval ue.ulCount) % 256 ∧
+      Spec.NasAlg.nia P ue.integrityAlg.toNat ue.knasInt (count32 (if op.newCtx then 0 else cval ue.ulCount)) 1 0 (sqn :: body)
+        = some mac := by
+  obtain ⟨body, mac, -, hm, he, -⟩ := step_protects P ue op hs hctx
+  refine ⟨mac, _, body, he, ?_, hm⟩
+  rw [UInt8.toNat_ofNat']; omega
+
+/-- the statement about the message body, parametric in the encoder so that it can be asked of the code before
+    and after the F8 repair: the octets end with the body, which is the NEA ciphertext of the plain message under
+    header types 2 and 4 and the plain message itself under every other header type. -/
+def BodyStatement (enc : Prims → UeSec → UlOp → UeSec × Res Bytes) : Prop :=
+  ∀ (P : Prims) (ue : UeSec) (op : UlOp), Supported ue → op.ctxAvail = true →
+    ∃ out body, (enc P ue op).2 = .ok out ∧ body <:+ out ∧
+      (if op.sht = 2 ∨ op.sht = 4
+        then Spec.NasAlg.nea P ue.cipheringAlg.toNat ue.knasEnc (count32 (if op.newCtx then 0 else cval ue.ulCount)) 1 0 op.plain = some body
+        else body = op.plain)
+
+/-- the body is ciphered iff the header type is 2 or 4 — holds for the repaired code -/
+theorem body_ciphered_iff_type_2_4 : BodyStatement nasEncode := by
+  intro P ue op hs hctx
+  obtain ⟨body, mac, hb, -, he, -⟩ := step_protects P ue op hs hctx
+  exact ⟨_, body, he, List.suffix_append _ _, hb⟩
+
+/-- **F8 (before commit dba9570).** The code called `NASEncrypt` under every header type. Witness: Registration
+    complete `7e 00 43` under header type 1 with NEA2/NIA2 leaves as `… f6 88 cb` (toy CTR keystream 0x88), not in clear. -/
+theorem body_statement_fails_before_F8_fix : ¬ BodyStatement nasEncodeLegacy := by
+  intro h
+  obtain ⟨out, body, ho, hsuf, hb⟩ := h toyPrims
+    { ulCount := 0, dlCount := 0, cipheringAlg := 2, integrityAlg := 2, knasEnc := List.replicate 16 0, knasInt := List.replicate 16 0 }
+    { plain := [0x7e, 0x00, 0x43], epd := 0x7e, sht := 1, ctxAvail := true, newCtx := false }
+    ⟨Or.inr rfl, Or.inr (Or.inr rfl)⟩ rfl
+  have hout : out = [0x7e, 0x01, 0xa0, 0xa1, 0xa2, 0xa3, 0x00, 0xf6, 0x88, 0xcb] := by
+    have : (nasEncodeLegacy toyPrims
+      { ulCount := 0, dlCount := 0, cipheringAlg := 2, integrityAlg := 2, knasEnc := List.replicate 16 0, knasInt := List.replicate 16 0 }
+      { plain := [0x7e, 0x00, 0x43], epd := 0x7e, sht := 1, ctxAvail := true, newCtx := false }).2
+        = .ok [0x7e, 0x01, 0xa0, 0xa1, 0xa2, 0xa3, 0x00, 0xf6, 0x88, 0xcb] := by rfl
+    rw [this] at ho
+    exact (Except.ok.inj ho).symm
+  simp at hb
+  subst hb hout
+  revert hsuf
+  decide
+
+/-! ### histories -/
+
+/-- **Any history refines the conformant UE.** For every sequence of calls on one UE context (protected or not,
+    new-context resets anywhere, any start value of the stored counter word): every call succeeds, the list of
+    returned octet strings is the list the specification's UE (`ueRun`, starting from the same NAS COUNT) sends,
+    and afterwards the UL counter holds the specification's NAS COUNT. -/
+theorem history_refines_spec (P : Prims) (ue : UeSec) (ops : List UlOp) (hs : Supported ue)
+    (hsc : ∀ op ∈ ops, UlInScope op) :
+    (runEncode P ue ops).2.map Except.toOption
+        = (ueRun P (ctxOf ue) ⟨cval ue.ulCount⟩ (ops.map toSend)).2.map (·.2) ∧
+    (∀ r ∈ (runEncode P ue ops).2, ∃ b, r = .ok b) ∧
+    cval (runEncode P ue ops).1.ulCount = (ueRun P (ctxOf ue) ⟨cval ue.ulCount⟩ (ops.map toSend)).1.count :=
+  let ⟨h1, h2, h3, _, _⟩ := ul_history P ue ops hs hsc
+  ⟨h1, h2, h3⟩
+
+/-- **The n-th message since the context was taken into use carries COUNT n − 1 (mod 2^24).** After any prefix `pre`,
+    `o₀` takes a new context into use (message 1, COUNT 0 by `step_protects`); `mid` follows without a new context;
+    then `o` is message n = protectedSends mid + 2 and what `NASEncode` returns for it is the specification's
+    protected message under COUNT (n − 1) mod 2^24 — no bound on the lengths of `pre` and `mid`. -/
+theorem count_nth_message (P : Prims) (ue : UeSec) (pre mid : List UlOp) (o₀ o : UlOp) (hs : Supported ue)
+    (hpre : ∀ op ∈ pre, UlInScope op) (hmid : ∀ op ∈ mid, UlInScope op) (hs₀ : UlInScope o₀) (hso : UlInScope o)
+    (h₀ : o₀.ctxAvail = true ∧ o₀.newCtx = true) (hnn : NoNewContext mid)
+    (hoc : o.ctxAvail = true) (hon : o.newCtx = false) :
+    ∃ out, (runEncode P ue (pre ++ o₀ :: (mid ++ [o]))).2.getLast? = some (.ok out) ∧
+      protect P (ctxOf ue) uplink ((protectedSends mid + 1) % 2 ^ 24) o.epd o.sht.toNat o.plain = some out :=
+  count_nth P ue pre mid o₀ o hs hpre hmid hs₀ hso h₀ hnn hoc hon
+
+/-- the same without a reset in sight: from a stored counter word of value `c`, the message after `k` protected
+    sends carries COUNT (c + k) mod 2^24 — across the SQN wrap, across 65 536 and across 2^24 -/
+theorem count_from_start (P : Prims) (ue : UeSec) (ops : List UlOp) (o : UlOp) (hs : Supported ue)
+    (hsc : ∀ op ∈ ops, UlInScope op) (hnn : NoNewContext ops)
+    (hso : UlInScope o) (hoc : o.ctxAvail = true) (hon : o.newCtx = false) :
+    ∃ out, (runEncode P ue (ops ++ [o])).2.getLast? = some (.ok out) ∧
+      protect P (ctxOf ue) uplink ((cval ue.ulCount + protectedSends ops) % 2 ^ 24) o.epd o.sht.toNat o.plain = some out :=
+  count_from P ue ops o hs hsc hnn hso hoc hon
+
+/-- **A conformant receiver recovers exactly the submitted plain message**, for the k-th message of any history:
+    holding the same keys and algorithms and the NAS COUNT the conformant sender used for message k, it finds the
+    sequence number and the MAC correct, deciphers under the ciphered header types, and returns `op.plain`. -/
+theorem receiver_recovers_plain (P : Prims) (hP : PrimsOk P) (ue : UeSec) (ops : List UlOp) (hs : Supported ue)
+    (hsc : ∀ op ∈ ops, UlInScope op) (k : Nat) (op : UlOp) (hk : ops[k]? = some op) (hctx : op.ctxAvail = true) :
+    ∃ c out, (runEncode P ue ops).2[k]? = some (.ok out) ∧
+      (ueRun P (ctxOf ue) ⟨cval ue.ulCount⟩ (ops.map toSend)).2[k]? = some (some c, some out) ∧
+      receive P (ctxOf ue) uplink c out = some op.plain :=
+  ul_history_received P hP ue ops hs hsc k op hk hctx
+
+/-- taking a new context into use resets both counters: the message itself uses COUNT 0 (`step_protects`),
+    afterwards the UL NAS COUNT is 1 and the DL NAS COUNT is 0, from whatever the stored words were -/
+theorem new_context_resets_counters (P : Prims) (ue : UeSec) (op : UlOp) (hs : Supported ue)
+    (hctx : op.ctxAvail = true) (hnew : op.newCtx = true) :
+    cval (nasEncode P ue op).1.ulCount = 1 ∧ cval (nasEncode P ue op).1.dlCount = 0 ∧
+    (Count.get (nasEncode P ue op).1.dlCount).2 = 0 := by
+  obtain ⟨body, mac, -, -, he⟩ := ul_step P ue op hs hctx
+  have hd : cval (nasEncode P ue op).1.dlCount = 0 := by
+    rw [he]; simpa [hnew] using cval_afterReset_dl ue op.newCtx
+  refine ⟨?_, hd, ?_⟩
+  · rw [he]; exact (cval_addOne_get _).trans (by rw [cval_afterReset_ul]; simp [hnew])
+  · rw [get_eq, hd]; rfl
+
+/-- without a security context the message is sent unchanged and nothing in the UE context moves -/
+theorem plain_passthrough (P : Prims) (ue : UeSec) (op : UlOp) (h : op.ctxAvail = false) :
+    nasEncode P ue op = (ue, .ok op.plain) :=
+  Proofs.NasProtect.plain_passthrough P ue op h
+
+/-- the bytes entry point `EncodeNasPduWithSecurity(ue, pdu, sht, ctxAvail, newCtx)`: for a `pdu` the plain codec
+    decodes and re-encodes to `plain` it is `NASEncode` with the EPD fixed to 0x7e (5GMM); so all of the above holds
+    for it, and for `plain = pdu` (C08: canonical encodings re-encode to themselves) the receiver recovers `pdu`. -/
+theorem bytes_entry (P : Prims) (hP : PrimsOk P) (ue : UeSec) (plain : Bytes) (sht : UInt8) (newCtx : Bool)
+    (hs : Supported ue) (hsht : protectedType sht.toNat = true) :
+    encodeNasPduWithSecurity P ue plain sht true newCtx
+      = nasEncode P ue { plain := plain, epd := 0x7e, sht := sht, ctxAvail := true, newCtx := newCtx } ∧
+    ∃ out, (encodeNasPduWithSecurity P ue plain sht true newCtx).2 = .ok out ∧ out.head? = some 0x7e ∧
+      receive P (ctxOf ue) uplink (if newCtx then 0 else cval ue.ulCount) out = some plain := by
+  refine ⟨rfl, ?_⟩
+  have := ul_history_received P hP ue [{ plain := plain, epd := 0x7e, sht := sht, ctxAvail := true, newCtx := newCtx }] hs
+    (by intro op hop; simp at hop; subst hop; exact fun _ => hsht) 0 _ rfl rfl
+  obtain ⟨c, out, h1, h2, h3⟩ := this
+  simp [runEncode] at h1
+  simp [ueRun, toSend, ueProtect] at h2
+  obtain ⟨hc, hp⟩ := h2
+  refine ⟨out, h1, ?_, by rw [← hc] at h3; exact h3⟩
+  unfold protect at hp
+  simp only [hsht, Bool.not_true, Bool.false_eq_true, if_false] at hp
+  split at hp
+  · simp at hp
+  · split at hp
+    · simp at hp
+    · simp only [Option.some.injEq] at hp; subst hp; rfl
+
+/-! ### the hypotheses are satisfiable -/
+
+example : Supported { ulCount := 0x00ffffff, dlCount := 5, cipheringAlg := 1, integrityAlg := 2,
+                      knasEnc := List.replicate 16 1, knasInt := List.replicate 16 2 } :=
+  ⟨Or.inr rfl, Or.inr (Or.inl rfl)⟩
+example : ∃ P, PrimsOk P := ⟨toyPrims, toyPrims_ok⟩
+/-- … and by the real SP 800-38A CTR / RFC 4493 CMAC over AES-128 (the comparator's executable instance) -/
+example : PrimsOk Crypto.prims := cryptoPrims_ok
+example : UlInScope { plain := [0x7e, 0, 0x43], epd := 0x7e, sht := 4, ctxAvail := true, newCtx := true } := fun _ => rfl
+example : NoNewContext [{ plain := [0x7e, 0, 0x43], epd := 0x7e, sht := 2, ctxAvail := true, newCtx := false }] := by
+  intro op hop; simp at hop; subst hop; simp
+
 end Stgutg.Props.C06
